@@ -15,10 +15,12 @@ import os, re
 LEAN_DIR = os.path.join(os.path.dirname(os.path.abspath(__file__)), "..", "lean")
 
 
-def props_theorems(pid):
+def props_theorems(pid, *more):
     """every `theorem` of KtVerif/Props/<pid>.lean (namespace KT) is an obligation of <pid>"""
-    path = os.path.join(LEAN_DIR, "KtVerif", "Props", pid + ".lean")
     out = []
+    for m in more:
+        out += props_theorems(m)
+    path = os.path.join(LEAN_DIR, "KtVerif", "Props", pid + ".lean")
     if os.path.exists(path):
         for line in open(path):
             m = re.match(r"theorem\s+([A-Za-z0-9_'.]+)", line)
@@ -49,7 +51,8 @@ PROPS = {
     "C08": {"theorems": props_theorems("C08") + C01_CORE + TIE_KMER, "partial": []},
     "C11": {"theorems": props_theorems("C11"), "partial": []},
     "C12": {"theorems": props_theorems("C12") + C01_CORE + TIE_KMER, "partial": []},
-    "C09": {"theorems": props_theorems("C09") + TIE_MIN, "partial": []},
+    "C06": {"theorems": props_theorems("C06"), "partial": []},
+    "C09": {"theorems": props_theorems("C09", "C09b") + TIE_MIN, "partial": []},
     "C18": {"theorems": props_theorems("C18") + TIE_KMIN + TIE_MIN, "partial": []},
 }
 
